@@ -235,14 +235,43 @@ def produced_kinds(an, prog):
                     if s["rv"]["adt"].endswith("::FieldValue") and b.edge_dominates((blk, tb), bb):
                         kinds.add(s["rv"]["variant"])
                 if not kinds:
-                    # value built by a crate helper called from this arm (one level)
-                    for cb2, tt, c in b.calls():
-                        if c is not None and c.local and b.edge_dominates((blk, tb), cb2):
-                            for hp, hb in prog.bodies.items():
-                                if hp == c.path or hp.startswith(c.path + "::{closure"):
-                                    for (bb, i, s) in block_aggs(hb):
+                    # value built by a function value applied in this arm: a closure (`map(be_u32, |a| FieldValue::X(..))`)
+                    # or the variant constructor itself (`map(f64::parse, FieldValue::Float64)`)
+                    arm_blocks = [x for x in sorted(b.live_blocks()) if b.edge_dominates((blk, tb), x)]
+                    for x in arm_blocks:
+                        for st in b.blocks[x]["stmts"]:
+                            if st["k"] == "assign" and st["rv"]["k"] == "aggregate" and st["rv"].get("agg") == "closure":
+                                cbody = prog.bodies.get(st["rv"]["closure"])
+                                if cbody is not None:
+                                    for (bb, i, s) in block_aggs(cbody):
                                         if s["rv"]["adt"].endswith("::FieldValue"):
                                             kinds.add(s["rv"]["variant"])
+                        tt0 = b.blocks[x]["term"]
+                        if tt0["k"] == "call":
+                            for a in tt0["args"]:
+                                if a.get("k") == "const" and "fn" in a:
+                                    m = re.match(r"^variable_versions::data_number::FieldValue::(\w+)$", a["fn"]["path"])
+                                    if m and m.group(1)[0].isupper():
+                                        kinds.add(m.group(1))
+                if not kinds:
+                    # value built by a crate helper called from this arm (one level)
+                    # (helpers of helpers too, up to three levels, with their closures)
+                    work = [(c.path, 0) for cb2, tt, c in b.calls() if c is not None and c.local and c.kind == "Item" and b.edge_dominates((blk, tb), cb2)]
+                    seenp = set()
+                    while work:
+                        hpth, dep = work.pop()
+                        if hpth in seenp:
+                            continue
+                        seenp.add(hpth)
+                        for hp, hb in prog.bodies.items():
+                            if hp == hpth or hp.startswith(hpth + "::{closure"):
+                                for (bb, i, s) in block_aggs(hb):
+                                    if s["rv"]["adt"].endswith("::FieldValue"):
+                                        kinds.add(s["rv"]["variant"])
+                                if dep < 2:
+                                    for _, _, c3 in hb.calls():
+                                        if c3 is not None and c3.local and c3.kind == "Item" and "nom_derive::Parse" not in c3.path and not c3.path.endswith("::from_field_type"):
+                                            work.append((c3.path, dep + 1))
                 out[name[0]] = kinds
             break
     # DataNumber::parse width table: (len, signed) -> variant
